@@ -568,6 +568,14 @@ def loop_exit(ctx):
                     return False
             return True
         ok3 = ok3 and ((same_trip_after(sb) and before_trip_work(sa)) or (same_trip_after(sa) and before_trip_work(sb)))
+        # the lists are compared as they were taken: neither is sorted, filtered or otherwise modified in place in between
+        # (a sorted worklist never equals the registry's own order again, and the loop would not end)
+        cmp_call = next((cc for cc in f.calls(lambda r: r['path'] and re.search(r'::(eq|ne)$', r['path'])) if opsites(cc['term']['args'][0]) == sa and opsites(cc['term']['args'][1]) == sb), None)
+        if cmp_call is not None:
+            for a_ in cmp_call['term']['args']:
+                for y in walk(f.expr_of_operand(a_)):
+                    if isinstance(y, tuple) and y and y[0] == 'var' and isinstance(y[1], int) and y[1] in f.mut_borrowed() and re.search(r'Vec<grammar::ItemPath>', f.local_ty(y[1])):
+                        ok3 = False
         err = [x for x in f.exits() if x['kind'] == 'err_own' and f.dominates(g.tgt, x['block'])]
         ok3 = ok3 and any(any(isinstance(y, tuple) and y and (is_call(y, 'TypeRegistry::unresolved') or (y[0] == 'var' and usites(y))) for y in walk(expand(f, x['expr']))) for x in err)
     ctx.ob(['C10', 'C12'], 'R-GUARD', 'C10-D1|no-progress-is-error', ok3,
